@@ -104,19 +104,41 @@ EStep(s) ==
                   \o d.data, "done")
     [] s.pc = "done" -> s
 
-RECURSIVE ERun(_)
-ERun(s) == IF s.pc = "done" THEN s ELSE ERun(EStep(s))
+RECURSIVE ERunK(_, _)
+ERunK(s, k) ==          \* doubling recursion, see Decoder!RunK
+  IF s.pc = "done" THEN s
+  ELSE IF k = 0 THEN EStep(s)
+  ELSE LET t == ERunK(s, k - 1) IN IF t.pc = "done" THEN t ELSE ERunK(t, k - 1)
+ERun(s) == ERunK(s, 20)
 
 ---------------------------------------------------------------------------
-\* big-step: [panic |-> BOOLEAN, buf |-> the writer's octets afterwards]
-EncodeInto(prefix, kind, v) == LET f == ERun(EncInit(prefix, kind, v)) IN [panic |-> f.panic, buf |-> f.buf]
-EncodeMessage(m) == EncodeInto(<< >>, "msg", m)
-EncodeAvp(a) == EncodeInto(<< >>, "avp", a)
+\* big-step, by running the machine: [panic |-> BOOLEAN, buf |-> the writer's octets afterwards]
+EncodeByMachine(prefix, kind, v) == LET f == ERun(EncInit(prefix, kind, v)) IN [panic |-> f.panic, buf |-> f.buf]
 
-\* octets of one AVP record, computed directly (used by Hiding and by invariants)
+\* octets of one AVP record, computed directly
 AvpRecord(a) ==
   LET p == AvpPayload(a) IN
   AvpFlagsAndLength(IsHidden(a), 6 + Len(p)) \o <<0, 0>> \o Be16(AvpTypeOf(a)) \o p
+
+\* The same result computed directly (records concatenated in a balanced way): linear instead of
+\* quadratic in the number of AVPs, which matters for messages of thousands of AVPs.  MCEncoder checks
+\* on the whole value catalogue that it equals the machine's result (FastEqualsMachine); when the
+\* machine panics the buffer is whatever had been written and is not compared.
+EncodeInto(prefix, kind, v) ==
+  IF kind = "avp"
+    THEN IF 6 + ValueLength(v) > MaxAvpLength THEN [panic |-> TRUE, buf |-> prefix]
+         ELSE [panic |-> FALSE, buf |-> prefix \o AvpRecord(v)]
+  ELSE IF v.k = "Control"
+    THEN LET recs == [i \in 1..Len(v.avps) |-> AvpRecord(v.avps[i])]
+             body == Concat(recs)
+         IN IF (\E i \in 1..Len(recs) : Len(recs[i]) > MaxAvpLength) \/ 12 + Len(body) > MaxMessageLength
+              THEN [panic |-> TRUE, buf |-> prefix]
+              ELSE [panic |-> FALSE,
+                    buf |-> prefix \o Be16(ControlFlagWord) \o Be16(12 + Len(body)) \o Be16(v.tunnel_id)
+                              \o Be16(v.session_id) \o Be16(v.ns) \o Be16(v.nr) \o body]
+  ELSE EncodeByMachine(prefix, kind, v)
+EncodeMessage(m) == EncodeInto(<< >>, "msg", m)
+EncodeAvp(a) == EncodeInto(<< >>, "avp", a)
 
 ---------------------------------------------------------------------------
 \* Invariants of every state of every run
@@ -132,12 +154,19 @@ PatchInsideFrame(s) ==
     /\ s.patch.off + s.patch.n <= Len(s.buf)
 
 \* independent walk over AVP length fields: do they tile b[from+1 .. Len(b)] exactly?
-RECURSIVE Tiles(_, _)
-Tiles(b, from) ==
-  IF from = Len(b) THEN TRUE
-  ELSE IF Len(b) - from < 6 THEN FALSE
-  ELSE LET len == (b[from + 1] \div 64) * 256 + b[from + 2]
-       IN len >= 6 /\ from + len <= Len(b) /\ Tiles(b, from + len)
+\* (position after one record; iterated by doubling
+\* so that thousands of records do not mean thousands of stack frames)
+TileStep(b, pos) ==          \* Len(b) + 1 stands for "unusable length field"
+  IF pos >= Len(b) THEN pos
+  ELSE IF Len(b) - pos < 6 THEN Len(b) + 1
+  ELSE LET len == (b[pos + 1] \div 64) * 256 + b[pos + 2]
+       IN IF len >= 6 /\ pos + len <= Len(b) THEN pos + len ELSE Len(b) + 1
+RECURSIVE TileRunK(_, _, _)
+TileRunK(b, pos, k) ==
+  IF pos >= Len(b) THEN pos
+  ELSE IF k = 0 THEN TileStep(b, pos)
+  ELSE LET t == TileRunK(b, pos, k - 1) IN IF t >= Len(b) THEN t ELSE TileRunK(b, t, k - 1)
+Tiles(b, from) == TileRunK(b, from, 16) = Len(b)
 
 \* C07 at the end of a run that did not panic
 LengthsExact(s) ==
